@@ -151,8 +151,7 @@ def r4(ctx):
     args = [A.canon(fn.key(a), rmap) for a in fn.nodes[u]['args']]
     ctx.ob('C01.R4', fn, u, args == ['recvSymbol', '&this.m_crc'], 'CRC update operands', 'updateCrc(%s)' % ', '.join(args))
     # before unescape: the unescape assignment of recvSymbol is not reachable before the update
-    unesc = [nid for nid, d, rhs, op, lhs in fn.assignments() if d and A.canon(d.split(':')[-1], rmap) == 'recvSymbol' and
-             op == '=' and rhs is not None and '?' in fn.key(rhs)]
+    unesc = [nid for nid, rhs in unescape_assignments(fn, rmap)]
     ok = bool(unesc) and all(fn.block_of(u) not in fn.reach([fn.block_of(x)]) for x in unesc)
     ctx.ob('C01.R4', fn, u, ok, 'CRC over escaped symbols', 'unescape happens only after the CRC update: %s' % ok)
     for nid, d, rhs, op, lhs in fn.assignments():
@@ -439,7 +438,127 @@ def r9(ctx):
     n = repeat_rule(ctx, 'C01.R9', PASSIVE, 5)
 
 
+def unescape_assignments(fn, rmap):
+    """[(assignment, rhs)]: writes to the received symbol under a pending escape (m_escape set) that do not copy the pending
+    symbol itself (that is the sending branch)"""
+    out = []
+    for nid, d, rhs, op, lhs in fn.assignments():
+        if not d or op != '=' or rhs is None or A.canon(d.split(':')[-1], rmap) != 'recvSymbol':
+            continue
+        if 'this.m_escape' in fn.key(rhs):
+            continue
+        atoms = [(a[0], a[1]) for a in fn.atoms(nid)]
+        if any(k in ('this.m_escape', '(this.m_escape == #0)') and (p if k == 'this.m_escape' else not p) for k, p in atoms):
+            out.append((nid, rhs))
+    return out
+
+
+def unescape_rule(ctx, rid):
+    ctx.rule(rid, 'the symbol behind an escape symbol is mapped back exactly: in handleReceive, with an escape pending, the '
+             'received 0x00 becomes 0xA9 and 0x01 becomes 0xAA (evaluated on the typed AST for both values, whatever form the '
+             'mapping takes), every other value is refused', minimum=2)
+    import re
+    import tinyeval
+    fb = ctx.fb
+    fn, sw, regs, edges, rmap = A.extracted_edges(fb)
+    ctx.touch(fn)
+    ua = unescape_assignments(fn, rmap)
+    if not ua:
+        raise AnalysisBroken('%s: unescaping of the received symbol not found in handleReceive' % rid)
+    rk = [k for k, v in rmap.items() if v == 'recvSymbol'][0]
+    rdecl = [d for nid, d, rhs, op, lhs in fn.assignments() if d and d.split(':')[-1] == rk][0] if rk else None
+    for p_ in fn.params:
+        if p_.get('name') == rk:
+            rdecl = p_['decl']
+    for val, want in ((0, 0xA9), (1, 0xAA)):
+        got = []
+        for nid, rhs in ua:
+            feas = True
+            for k, pol in ((a[0], a[1]) for a in fn.atoms(nid)):
+                m = re.match(r'^\(%s (<|<=|==) #(\d+)\)$' % re.escape(rk), k)
+                if m:
+                    c = int(m.group(2))
+                    holds = {'<': val < c, '<=': val <= c, '==': val == c}[m.group(1)]
+                    if holds != bool(pol):
+                        feas = False
+            if not feas:
+                continue
+            mch = tinyeval.Machine(fn, {}, [])
+            mch.locals[rdecl] = val
+            try:
+                got.append(mch.rv(rhs) & 0xff)
+            except tinyeval.Unknown as e:
+                raise AnalysisBroken('%s: unescape expression not evaluable (%s)' % (rid, e))
+        ctx.ob(rid, fn, ua[0][0], got == [want], 'escape sequence A9 %02X' % val,
+               'decodes to %s, the protocol says %02x' % (['%02x' % g for g in got], want))
+    # larger values are refused: some return under (recvSymbol > 1) with an escape pending
+    refuse = False
+    for r in fn.all('ReturnStmt'):
+        atoms = [(a[0], a[1]) for a in fn.atoms(r)]
+        if any(k == '(%s <= #1)' % rk and not p for k, p in atoms) and \
+                any(k in ('this.m_escape', '(this.m_escape == #0)') and (p if k == 'this.m_escape' else not p) for k, p in atoms):
+            refuse = True
+    ctx.ob(rid, fn, ua[0][0], refuse, 'other symbols behind an escape', 'refused with an error: %s' % refuse)
+
+
+def serial_raw_rule(ctx, rid):
+    ctx.rule(rid, 'the serial line is transparent for all 256 byte values: the termios structure that SerialTransport::openInternal '
+             'hands to tcsetattr is built from zero (memset / value initialisation on every path, no whole-structure assignment '
+             'behind it), input flags are only set from {IGNBRK, IGNPAR} and output flags are not set at all - inherited or '
+             'added ICRNL/IXON/ISTRIP/OPOST would translate or swallow 0x0d, 0x11, 0x13 and bit 7', minimum=3)
+    fb = ctx.fb
+    fn = fb.fn('ebusd::SerialTransport::openInternal')
+    ctx.touch(fn)
+    sets = [c for c in fn.all('CallExpr') if fn.nodes[c].get('callee') == 'tcsetattr' and len(fn.nodes[c].get('args', [])) == 3]
+    if not sets:
+        raise AnalysisBroken('%s: tcsetattr not called in SerialTransport::openInternal' % rid)
+    n = 0
+    for c in sets:
+        tgt = fn.key(fn.nodes[c]['args'][2])
+        if not tgt.startswith('&'):
+            raise AnalysisBroken('%s: tcsetattr argument %s not understood' % (rid, tgt))
+        var = tgt[1:]
+        zero = set(m for m in fn.all('CallExpr') if fn.nodes[m].get('callee') == 'memset' and len(fn.nodes[m]['args']) == 3 and
+                   fn.key(fn.nodes[m]['args'][0]) == tgt and fn.val(fn.nodes[m]['args'][1]) == 0)
+        for nid, d, rhs, op, lhs in fn.assignments():
+            if op == 'init' and d and d.split(':')[-1] == var and rhs is not None and fn.nodes[fn.strip(rhs)].get('k') in ('InitListExpr', 'CXXScalarValueInitExpr', 'ImplicitValueInitExpr'):
+                zero.add(nid)
+        whole = set()
+        for x, v in fn.nodes.items():
+            if v['k'] == 'CXXOperatorCallExpr' and v.get('op') == '=' and v.get('args') and fn.key(v['args'][0]) == var:
+                whole.add(x)
+            if v['k'] == 'BinaryOperator' and v.get('op') == '=' and fn.key(v['lhs']) == var:
+                whole.add(x)
+            if v['k'] == 'CallExpr' and v.get('callee') in ('memcpy', 'tcgetattr', 'cfmakeraw') and v.get('args') and \
+                    tgt in [fn.key(a) for a in v['args']][:2] and v.get('callee') != 'cfmakeraw':
+                whole.add(x)
+        pc = fn.pos(c)
+        unzeroed = fn.reaches_point(fn.entry, pc, zero)
+        overwritten = [fn.line_of(w) for w in whole if fn.pos(w) and any(
+            fn.pos(z) and fn.reaches_point(fn.pos(z)[0], fn.pos(w), set(), start_idx=fn.pos(z)[1] + 1) for z in zero) and
+            fn.reaches_point(fn.pos(w)[0], pc, zero, start_idx=fn.pos(w)[1] + 1)]
+        n += 1
+        ctx.ob(rid, fn, c, bool(zero) and not unzeroed and not overwritten, 'termios of tcsetattr built from zero',
+               'reachable without zeroing: %s; overwritten as a whole at line(s) %s' % (unzeroed, overwritten))
+        for nid, d, rhs, op, lhs in fn.assignments():
+            if lhs is None or rhs is None:
+                continue
+            lk = fn.key(lhs)
+            if lk in (var + '.c_iflag', var + '.c_oflag'):
+                n += 1
+                val = fn.val(rhs)
+                if lk.endswith('c_iflag'):
+                    ok = val is not None and ((op == '|=' and (val & ~0x5) == 0) or (op == '=' and (val & ~0x5) == 0) or op == '&=')
+                else:
+                    ok = (op == '&=') or (op in ('=', '|=') and val == 0)
+                ctx.ob(rid, fn, nid, ok, '%s %s %s' % (lk, op, fn.key(rhs)), 'only IGNBRK/IGNPAR may be set on input, nothing on output: %s' % ok)
+    if n < 3:
+        raise AnalysisBroken('%s: only %d settings found' % (rid, n))
+
+
 def run(ctx):
+    serial_raw_rule(ctx, 'C01.R18')
+    unescape_rule(ctx, 'C01.R20')
     import rules.C03 as c03
     c03.initial_state_rule(ctx, 'C01.R16')
     ctx.rule('C01.R12', 'no exit of handleReceive lies between the reception of a symbol and the CRC update other than the '
@@ -466,3 +585,7 @@ def run(ctx):
                'isValidAddress/isMaster reports telegrams with an invalid source or destination')
     import rules.C09 as c09
     c09.symbol_layout_rule(ctx, 'C01.R15')
+    import rules.C14 as _c14
+    _c14.overflow_threshold_rule(ctx, 'C01.R17')
+    import rules.C11 as _c11
+    _c11.crc_start_rule(ctx, 'C01.R19')
